@@ -27,6 +27,8 @@ func rulesC04(c *Ctx, r *Report) {
 	rulesNoBufferedPkg(c, r, "formats/bed")
 	rulesBedSkip(c, r)
 	rulesEntryPoints(c, r, "formats/bed")
+	rulesNoFloatToInt(c, r, "formats/bed")
+	rulesWriterErrOrigin(c, r, "formats/bed", "(*BED).Write", bedNRange)
 	rulesNumWidth(c, r, "formats/bed")
 }
 
